@@ -210,6 +210,134 @@ def run_sample_request(ctx, reqs):
                "; ".join((failing + errors)[:6]))
 
 
+# ---------------------------------------------------------------- mock values (Model/MockDfs.v)
+_PK = {1: "PkFloat", 2: "PkFloat", 3: "PkInt", 4: "PkInt", 5: "PkInt", 6: "PkInt", 7: "PkInt", 8: "PkBool", 9: "PkStr", 12: "PkBytes",
+       13: "PkInt", 15: "PkInt", 16: "PkInt", 17: "PkInt", 18: "PkInt"}
+
+
+def schema_terms(req, reserved):
+    """(schema term, {message fqn: [(attr name, field descriptor)]}, enum table) from the INPUT descriptors."""
+    msgs, enums = {}, {}
+
+    def walk(prefix, m):
+        fqn = prefix + "." + m.name
+        msgs[fqn] = m
+        for e in m.enum_type:
+            enums[fqn + "." + e.name] = [v.number for v in e.value]
+        for n in m.nested_type:
+            walk(fqn, n)
+    for fp in req.proto_file:
+        pre = "." + fp.package if fp.package else ""
+        for e in fp.enum_type:
+            enums[pre + "." + e.name] = [v.number for v in e.value]
+        for m in fp.message_type:
+            walk(pre, m)
+    target_pkgs = {fp.package for fp in req.proto_file if fp.name in req.file_to_generate}
+    import os
+    common = os.path.commonprefix(sorted(target_pkgs)).rstrip(".")
+
+    def attr(fqn, f):
+        # Field.name: suffixed only for proto-plus types, i.e. messages of the target package
+        return f.name + "_" if f.name in reserved and fqn[1:].startswith(common) else f.name
+
+    def kind(f):
+        if f.type == 11:
+            t = msgs.get(f.type_name)
+            if t is not None and t.options.map_entry:
+                return f"MMapEntry {coq.s(f.type_name[1:])}"
+            if f.type_name == ".google.protobuf.Any":
+                return "MAny"
+            return f"MMsg {coq.s(f.type_name[1:])}"
+        if f.type == 14:
+            return "MEnum " + coq.lst(coq.z(n) for n in enums.get(f.type_name, []))
+        return f"MPrim {_PK[f.type]}"
+
+    def fterm(fqn, f):
+        return f"{{| mf_name := {coq.s(attr(fqn, f))}; mf_kind := {kind(f)}; mf_rep := {coq.b(f.label == 3 and not (f.type == 11 and msgs.get(f.type_name) is not None and msgs[f.type_name].options.map_entry and False))} |}}"
+    sch = coq.lst(f"({coq.s(fqn[1:])}, {coq.lst(fterm(fqn, f) for f in m.field)})" for fqn, m in msgs.items())
+    return sch, msgs, fterm, len(msgs)
+
+
+def mval_term(v):
+    k = v["k"]
+    if k == "none": return "MVNone"
+    if k == "bool": return "MVBool"
+    if k == "str": return f"MVStr {coq.s(v['v'])}"
+    if k == "bytes": return f"MVBytes {coq.s(v['v'].encode('latin-1'))}"
+    if k == "float": return None
+    if k == "int": return ("INT", v["v"])
+    if k == "dict":
+        if [x[0] for x in v["v"]] == ["type_url", "value"] and v["v"][0][1].get("v") == "type.googleapis.com/google.protobuf.Duration":
+            return "MVAnyDuration"
+        return ("DICT", v["v"])
+    if k == "list": return ("LIST", v["v"])
+    return None
+
+
+def run_mock(ctx, reqs):
+    from .. import t0
+    reserved = set(t0.reserved_names())
+    outs = gen.pmap(lambda r: gen.impl("c13_mock", {"request_b64": apigen.req_b64(r)}), reqs)
+    checks, defs = [], []
+    for ri, (req, out) in enumerate(zip(reqs, outs)):
+        sch, msgs, fterm, nmsgs = schema_terms(req, reserved)
+        defs.append(f"Definition sch{ri} : mschema := {sch}.")
+        for rec in out:
+            fqn = "." + rec["message"]
+            m = msgs.get(fqn)
+            if m is None:
+                continue
+            f = next(x for x in m.field if x.name == rec["field"])
+            ctx.case({"mock": rec["message"] + "." + rec["field"], "req": ri}, nontrivial=f.type in (11, 14) or f.label == 3,
+                     feature=["mock-msg" if f.type == 11 else ("mock-enum" if f.type == 14 else "mock-prim")])
+            if "error" in rec:
+                ctx.violation(f"mock_value_original_type of {rec['message']}.{rec['field']} raised {rec['error']}",
+                              {"request_b64": apigen.req_b64(req), "field": rec["message"] + "." + rec["field"]})
+                continue
+            # compare through a canonical rendering computed inside Coq (render_mval) vs the same rendering of the implementation's value
+            checks.append((f"req#{ri} mock {rec['message']}.{rec['field']}",
+                           f"match mock {nmsgs + 1} sch{ri} [] {fterm(fqn, f)} with Some (v, _) => String.eqb (render_mval v) {coq.s(render_py(rec['value']))} | None => false end"))
+    defs.append(RENDER_DEF)
+    failing, errors, nf = coq.eval_checks("c13mock", "From GV Require Import Model.MockDfs.\nFrom Coq Require Import ZArith.", "\n".join(defs), checks, chunk=150)
+    ctx.oblige(f"T2 Field.mock_value_original_type = Model/MockDfs.mock on {len(checks)} fields of {len(reqs)} generated APIs",
+               not failing and not errors and len(checks) > 0, "; ".join((failing + errors)[:6]))
+
+
+def render_py(v):
+    """Canonical text of a mock value (floats opaque)."""
+    k = v["k"]
+    if k == "none": return "N"
+    if k == "bool": return "B"
+    if k == "str": return "S<" + v["v"] + ">"
+    if k == "bytes": return "Y<" + v["v"] + ">"
+    if k == "float": return "F"
+    if k == "int": return "I<" + str(v["v"]) + ">"
+    if k == "dict":
+        if [x[0] for x in v["v"]] == ["type_url", "value"] and v["v"][0][1].get("v") == "type.googleapis.com/google.protobuf.Duration":
+            return "A"
+        return "D{" + ",".join(kk + "=" + render_py(x) for kk, x in v["v"]) + "}"
+    if k == "list": return "L[" + ",".join(render_py(x) for x in v["v"]) + "]"
+    return "?"
+
+
+RENDER_DEF = """
+Fixpoint pos_dec (fuel : nat) (p : positive) (acc : string) : string :=
+  match fuel with O => acc | S f =>
+    let d := Z.to_nat (Z.modulo (Zpos p) 10) in
+    let acc' := String (chr (48 + N.of_nat d)) acc in
+    match Z.div (Zpos p) 10 with Zpos q => pos_dec f q acc' | _ => acc' end end.
+Definition z_dec (z : Z) : string :=
+  match z with Z0 => "0" | Zpos p => pos_dec 40 p "" | Zneg p => "-" ++ pos_dec 40 p "" end.
+Fixpoint render_mval (v : mval) : string :=
+  match v with
+  | MVNone => "N" | MVBool => "B" | MVStr s => "S<" ++ s ++ ">" | MVBytes s => "Y<" ++ s ++ ">"
+  | MVInt z => "I<" ++ z_dec z ++ ">" | MVEnum z => "I<" ++ z_dec z ++ ">" | MVFloat _ _ => "F" | MVAnyDuration => "A"
+  | MVDict d => "D{" ++ sjoin "," (map (fun kv => fst kv ++ "=" ++ render_mval (snd kv)) d) ++ "}"
+  | MVList l => "L[" ++ sjoin "," (map render_mval l) ++ "]"
+  end.
+"""
+
+
 def run(ctx):
     run_pure(ctx)
     sample_reqs = []
@@ -220,6 +348,7 @@ def run(ctx):
         except apigen.Invalid:
             pass
     run_sample_request(ctx, sample_reqs)
+    run_mock(ctx, sample_reqs[:ctx.n(4, 20)])
     jobs = []
     for i in range(ctx.n(2, 40)):
         r = env.rng("C13-api", i)
